@@ -49,6 +49,10 @@ SPEC = dict(
     rule=("case = rule set + cascade scope + history of events + worker count 1..4, run through a real Processor "
           "(AddEventAndWait, or AddEvent for all and Finish) and a RuleIndex; compared per event: IsTriggering, the sorted "
           "multiset of Match names, whether AddEvent returned a monitor, the sorted multiset of executed rule names. "
+          "ECAL-level cases (l=e, ~2 % of the quick tier): the same kind of rule set declared as sinks (kindmatch / scopematch / "
+          "statematch incl. lists and maps / priority / suppresses) in a real interpreter runtime, events added with addEvent / "
+          "addEventAndWait and a scope map with true and false entries at nested paths (or omitted); compared: the sorted executed "
+          "sink names per event (x.mark in the sink body). Regex state patterns exist only at the engine level (createRule copies values). "
           "Non-trivial = for at least one event of the case a kind pattern of some rule matches."),
     exhaustive=("every single rule over segments {a,b,*}, depth <=2, <=2 patterns, state keys {k,l} values {nil,1,'x',[1],{'a':1}} "
                 "x every event of depth <=2 over {a,b} x 9 states; rule pairs / triples over reduced universes with suppression, "
